@@ -312,16 +312,18 @@ theorem finishDataPage_inb (fx : Fixes) (hfx : fx.viewBound = true) (L : Libs) (
           split
           · exact pure_inb _ _
           · split
-            · rename_i hview
-              apply andThen_inb
-              · have hb := bodyBytes_ok _ _ _ _ _ _ hbody
-                have hv := takesView_bound fx hfx mode c hr.1 hview
-                apply viewPage_inb
-                omega
-              · intro d _; exact pure_inb _ _
+            · exact pure_inb _ _
             · split
-              · exact pure_inb _ _
-              · split <;> exact pure_inb _ _
+              · rename_i hview
+                apply andThen_inb
+                · have hb := bodyBytes_ok _ _ _ _ _ _ hbody
+                  have hv := takesView_bound fx hfx mode c hr.1 hview
+                  apply viewPage_inb
+                  omega
+                · intro d _; exact pure_inb _ _
+              · split
+                · exact pure_inb _ _
+                · split <;> exact pure_inb _ _
 
 theorem prepStage_inb (fx : Fixes) (hd : fx.dictBound = true) (L : Libs) (verify : Bool) (mode : Mode) (b : Bytes)
     (c : Col) (st : PState) : AllIn b.length (prepStage fx L verify mode b c st).accesses := by
@@ -447,12 +449,14 @@ theorem finishDataPage_heap (fx : Fixes) (L : Libs) (verify : Bool) (mode : Mode
           split
           · exact pure_heap _
           · split
-            · apply andThen_heap
-              · unfold viewPage; exact heapOk_nil
-              · intro d _; exact pure_heap _
+            · exact pure_heap _
             · split
-              · exact pure_heap _
-              · split <;> exact pure_heap _
+              · apply andThen_heap
+                · unfold viewPage; exact heapOk_nil
+                · intro d _; exact pure_heap _
+              · split
+                · exact pure_heap _
+                · split <;> exact pure_heap _
 
 theorem loadDataPage_heap (fx : Fixes) (hd : fx.dictBound = true) (L : Libs) (verify : Bool) (mode : Mode) (b : Bytes)
     (c : Col) (st : PState) : HeapOk (loadDataPage fx L verify mode b c st).heapReads := by
